@@ -1957,6 +1957,38 @@ func r2014(c *an.Ctx) {
 						if an.IsExtractOf(cond, lk, 1) && branch {
 							guarded = true
 						}
+						// a named boolean for `a && b && …`: it is true only when the chain ran to its last operand, so
+						// what guards the blocks its non-false values come from guards the return as well
+						if phi, isPhi := cond.(*ssa.Phi); isPhi && branch {
+							some, all := false, true
+							for i, ev := range phi.Edges {
+								if b, isC := an.ConstBool(ev); isC && !b {
+									continue
+								}
+								some = true
+								okEdge := an.IsExtractOf(ev, lk, 1)
+								pred := phi.Block().Preds[i]
+								for _, e2 := range an.GuardingEdges(pred.Instrs[len(pred.Instrs)-1]) {
+									c2, b2 := e2.If.Cond, e2.Branch
+									for {
+										if u, isNot := c2.(*ssa.UnOp); isNot && u.Op == token.NOT {
+											c2, b2 = u.X, !b2
+											continue
+										}
+										break
+									}
+									if an.IsExtractOf(c2, lk, 1) && b2 {
+										okEdge = true
+									}
+								}
+								if !okEdge {
+									all = false
+								}
+							}
+							if some && all {
+								guarded = true
+							}
+						}
 					}
 					if !guarded {
 						good = false
@@ -2463,7 +2495,7 @@ func r2021(c *an.Ctx, rule string) {
 				for _, f := range an.WithClosures(ic.fn) {
 					an.Instrs(f, func(in ssa.Instruction) {
 						call, ok := in.(*ssa.Call)
-						if !ok || !strings.HasSuffix(an.CalleeName(call), "protobuf/proto.Merge") || len(call.Call.Args) != 2 {
+						if !ok {
 							return
 						}
 						isParam := func(v ssa.Value, p *ssa.Parameter) bool {
@@ -2474,7 +2506,18 @@ func r2021(c *an.Ctx, rule string) {
 							}
 							return false
 						}
-						if !isParam(call.Call.Args[0], ic.new) || !isParam(call.Call.Args[1], ic.old) {
+						if !strings.HasSuffix(an.CalleeName(call), "protobuf/proto.Merge") {
+							// the restore as a helper of its own: judged by the helper's body
+							d, s0, resetFirst, isHelper := mergeOfParams(call.Call.StaticCallee())
+							if isHelper && d < len(call.Call.Args) && s0 < len(call.Call.Args) && isParam(call.Call.Args[d], ic.new) && isParam(call.Call.Args[s0], ic.old) {
+								n++
+								c.SawFunc(an.FuncName(ic.fn))
+								c.Check(resetFirst, rule, fmt.Sprintf("%s|restoring the old value starts from an empty message", an.FuncName(ic.fn)), call.Pos(), "proto.Reset(new) dominates proto.Merge(new, old) in the helper",
+									"the old value is merged back into a `new` that still holds what the failed update wrote: proto.Merge leaves those fields alone wherever the old value is zero, so a refused dispense is stored half applied")
+							}
+							return
+						}
+						if len(call.Call.Args) != 2 || !isParam(call.Call.Args[0], ic.new) || !isParam(call.Call.Args[1], ic.old) {
 							return
 						}
 						n++
